@@ -4,6 +4,8 @@ Model: lean/ChythonModel/Model/C15Compose.lean (MoleculeContainer.compose, Graph
 DynamicElement.from_atom(s), DynamicBond, CGRContainer.center_atoms), Model/C15Format.lean (ReactionContainer.__format__,
 CGRSmiles._format_atom/_format_bond over regenerated string tables), Model/C15Read.lean (reaction branch of
 files/daylight/smiles.py: CXSMILES fragment/radical parsing, role split, fragment contraction).
+Model/C15Radicals.lean (CXSMILES radical block on reading: findall(cx_radicals), index resolution over the parsed molecules),
+Model/C15Mapping.lean (files/_mapping.py: postprocess_parsed_reaction incl. remap / ignore options).
 Theorems: lean/ChythonModel/Props/C15.lean.  Tie: K (differential testing of the driver against the real chython on
 reactions assembled from corpus molecules by ground-truth edits) + G (regenerated dyn_* string tables).
 """
@@ -17,7 +19,9 @@ LEVEL_TEXT = ('The clauses about the condensed graph (bond/atom specification, d
               'centre, equivariance under consistent renumbering), about the reaction signature (invariance under permutation '
               'inside a role) and about reading back the written role partition are universally quantified Lean theorems over an '
               'executable model that mirrors compose / union / center_atoms / ReactionContainer.__format__ / the reaction branch '
-              'of smiles(); the model is tied to today\'s source by differential testing on generated reactions and by string '
+              'of smiles() incl. the CXSMILES radical block (write -> read restores the is_radical flag of every atom) / '
+              'postprocess_parsed_reaction (mapping repair: clean maps untouched, injective per role, remap=True is one '
+              'injective renumbering); the model is tied to today\'s source by differential testing on generated reactions and by string '
               'tables regenerated from /repo. Proof is the right level because these functions are small, first-order and '
               'purely structural; canonical numbering (Morgan) and the molecule-level SMILES writer are NOT in this model '
               '(C01/C02) and enter only as named hypotheses / run-time relational checks.')
@@ -29,13 +33,18 @@ RULE = ('reactions assembled from corpus / handmade molecules: 1-3 molecules per
         'derived by 0-4 ground-truth edits (bond cleaved / formed / order changed, charge changed, radical toggled), components '
         'regrouped into 0-3 molecules per role incl. empty roles and multi-component salts, optional reagents (colliding '
         'numbers exercise remap), optional leaving groups (unbalanced), element/isotope clashes (error branch), all '
-        'role-internal orders (<= 6 per role), consistent renumberings; a case is non-trivial when it has >= 1 atom; distinct by '
+        'role-internal orders (<= 6 per role), consistent renumberings; reaction texts with generated CXSMILES radical / fragment '
+        'blocks (valid, out of range, colliding, several blocks, junk) over plain and atom-mapped fragments; parsed mapping '
+        'records (clean, gaps, duplicates, reagent overlap, unbalanced; exhaustive small domain) with all reader options; '
+        'unions of 1-4 molecules with colliding numberings; a case is non-trivial when it has >= 1 atom; distinct by '
         '(stream, canonical request line)')
 TRUSTED = ['hand-written models Model/C15*.lean (validated by K, not verified against the Python text)',
            'harness/gen/gen_c15.py translator of the dyn_* / charge_str / organic_set tables',
            'harness canonicalisation of CGRContainer / ReactionContainer (sorting of what came from a set)']
 ASSUMPTIONS = ['Bond.order in {1,2,3,4,8} (class invariant enforced by Bond.__init__)',
                '_bonds[n] is a dict: neighbour keys unique; adjacency symmetric, no loops (Mol.WF; checked by the driver per input)',
+               'the molecule parser yields the atoms of a written molecule string in the written order (hypothesis hn of '
+               'rxn_read_write_radicals; checked on every molecule of the fmt stream)',
                'molecule-level strings (MoleculeContainer.__format__), connected_components_count and Morgan order are outside '
                'this model: they are read from the real code and enter theorems as hypotheses']
 HAS_DRIVER = True
@@ -399,6 +408,7 @@ def correspond(ctx):
         ctx.dist('rxn:' + (real if isinstance(real, str) else 'ok'))
     small_exhaustive(ctx, s_comp, s_exact)
     _state['cases'] = cases
+    _state['union_reported'] = False
     s_union = Stream(ctx, 'union')
     union_stream(ctx, rng, raws, s_union, programs)
     s_fmt, s_read, s_tok, s_hash = Stream(ctx, 'fmt'), Stream(ctx, 'read'), Stream(ctx, 'tokens'), Stream(ctx, 'hash')
@@ -430,6 +440,47 @@ def correspond(ctx):
 
 
 
+def oracle_union(raws_):
+    """`reduce(or_, mols)` (the left / right side of `~reaction`) keeps every atom and every molecule: as many atoms as the
+    operands have together, and the same multiset of connected components — whatever the numberings (real code only)"""
+    from functools import reduce
+    from operator import or_
+    ms = [build(x) for x in raws_]
+    try:
+        u = reduce(or_, ms)
+    except Exception as e:
+        return 'C15/union/raises/' + type(e).__name__, f'union of molecules numbered {[sorted(x.atoms) for x in raws_]} raised {e}'
+    if len(u) != sum(len(m) for m in ms):
+        return ('C15/union/atoms-lost', f'union of molecules numbered {[sorted(x.atoms) for x in raws_]} has {len(u)} atoms, the '
+                f'operands {sum(len(m) for m in ms)}')
+    want = sorted(k for m in ms for k in mol_key(m))
+    got = sorted(mol_key(u))
+    if want != got:
+        return 'C15/union/molecules', f'union of molecules numbered {[sorted(x.atoms) for x in raws_]} is {got}, operands {want}'
+    return None
+
+
+def gen_union_raws(rng, small):
+    k = rng.choice((1, 2, 2, 2, 3, 3, 4))
+    out = []
+    for _ in range(k):
+        m = rng.choice(small)
+        kind = rng.choice(('one', 'one', 'random', 'block', 'far'))
+        ids = list(m.atoms)
+        if kind == 'one':
+            f = {n: 1 + j for j, n in enumerate(ids)}
+        elif kind == 'random':
+            f = dict(zip(ids, rng.sample(range(1, 3 * len(ids) + 8), len(ids))))
+        elif kind == 'block':
+            st = rng.randint(1, 15)
+            f = {n: st + j for j, n in enumerate(ids)}
+        else:
+            st = rng.randint(30, 60)
+            f = {n: st + 2 * j for j, n in enumerate(ids)}
+        out.append(m.renamed(f))
+    return out
+
+
 def union_stream(ctx, rng, raws, s_union, programs):
     """`reduce(or_, mols)` = Graph.union(remap=True) on 1-4 molecules whose numberings are disjoint, overlap partly or
     coincide (remap relative to max of the left operand), compared in exact dict order"""
@@ -437,23 +488,15 @@ def union_stream(ctx, rng, raws, s_union, programs):
     from operator import or_
     small = [x for x in raws if len(x.atoms) <= 12]
     for i in range(300 if ctx.quick else 4000):
-        k = rng.choice((1, 2, 2, 2, 3, 3, 4))
-        ms = []
-        for _ in range(k):
-            m = rng.choice(small)
-            kind = rng.choice(('one', 'one', 'random', 'block', 'far'))
-            ids = list(m.atoms)
-            if kind == 'one':
-                f = {n: 1 + j for j, n in enumerate(ids)}
-            elif kind == 'random':
-                f = dict(zip(ids, rng.sample(range(1, 3 * len(ids) + 8), len(ids))))
-            elif kind == 'block':
-                st = rng.randint(1, 15)
-                f = {n: st + j for j, n in enumerate(ids)}
-            else:
-                st = rng.randint(30, 60)
-                f = {n: st + 2 * j for j, n in enumerate(ids)}
-            ms.append(build(m.renamed(f), rng))
+        rs_ = gen_union_raws(rng, small)
+        k = len(rs_)
+        ms = [build(x, rng) for x in rs_]
+        if i % 3 == 0:
+            res = oracle_union(rs_)
+            ctx.count(('relational', 'union', i))
+            if res and not _state.get('union_reported'):
+                _state['union_reported'] = True
+                ctx.fail(res[0], res[1], {'kind': 'union', 'mols': [raw_json(x) for x in rs_]})
         collide = any(set(a._atoms) & set(b._atoms) for a, b in itertools.combinations(ms, 2))
         req = 'union %d %s' % (k, ' '.join(wire.mol_to_line(m) for m in ms))
         real = outcome(lambda: 'ok ' + wire.mol_to_line(reduce(or_, ms)))
@@ -540,6 +583,11 @@ def fmt_request(rx, spec):
     for m in rx.molecules():
         s, nc, rad = sig_of(m, spec)
         ok = ok and (s.count('.') + 1 == nc)
+        if not spec or spec == '!c':
+            # hypothesis `hn` of rxn_read_write_radicals: the parser yields the atoms of the written string in the written order
+            els = piece_atoms(s)
+            _, o = m.__format__(spec, _return_order=True)
+            ok = ok and els is not None and list(els) == [m.atom(n).atomic_symbol for n in o]
         parts.append(f'{len(s)} {cps(s)} {nc} {len(rad)} ' + ' '.join(str(int(r)) for r in rad))
     return norm(' '.join(parts)), ok
 
@@ -699,7 +747,8 @@ def format_and_read(ctx, rng, raws, cases, s_fmt, s_read, programs):
             ctx.sample({'stream': 'fmt/read', 'text': text})
     if assumption_breaks:
         ctx.broke('relational', 'signature-dots-vs-components',
-                  f'{assumption_breaks} molecules whose signature has a number of dots different from components - 1')
+                  f'{assumption_breaks} molecules whose signature has a number of dots different from components - 1, or whose '
+                  f'signature is parsed to other atoms / another atom order than the writer enumerated')
     n_read = 1500 if ctx.quick else 20000
     for i in range(n_read):
         text, flavour = gen_read_text(rng)
@@ -1922,6 +1971,11 @@ def search(ctx):
             if res:
                 ctx.fail(res[0], res[1], {'kind': 'read-partition', 'text': text})
                 return
+        rs_ = gen_union_raws(rng, small)
+        res = oracle_union(rs_)
+        if res:
+            ctx.fail(res[0], res[1], {'kind': 'union', 'mols': [raw_json(x) for x in rs_]})
+            return
         text, _ = gen_mapped_text(rng)
         rm = rng.random() < 0.3
         res = oracle_mapping_text(text, remap=rm)
@@ -2046,6 +2100,9 @@ def probe(inp):
         if res and res[0] != 'inherited':
             return True, f'{res[0]}: {res[1]}'
         return False, 'CGR signature and centre are invariant under this renumbering'
+    if kind == 'union':
+        res = oracle_union([raw_from_json(x) for x in inp['mols']])
+        return (True, f'{res[0]}: {res[1]}') if res else (False, 'the union keeps every atom and every molecule')
     if kind == 'written-text':
         res = oracle_written_text(inp['text'])
         return (True, f'{res[0]}: {res[1]}') if res else (False, 'the written text is a fixed point of read / write')
